@@ -1,7 +1,9 @@
 // S-harness for cocls::signal<int> / cocls::signal<void> (C15).
 // Reads cases from stdin, prints one canonical line per operation (see lean/Drivers/C15.lean).
 //
-//   case <id> sig <int|void>
+//   case <id> sig <int|void> [hook]   with `hook` there is no signal at first: the first operation must be
+//   hlisten <script>          a listener on signal<T>::hook_up(fn): its first co_await creates the signal, subscribes,
+//                             then passes the collector to fn (which stores it as handle 0)
 //   listen <script>           coroutine listener; script over {r,g,x}: what it does after the 1st, 2nd ... value
 //                             (r = re-await at once, g = wait at a gate until `wake`, then re-await, x = leave);
 //                             "-" = empty script; after the script is used up the listener re-awaits for ever
@@ -94,6 +96,32 @@ async<void> listener(Ctx &cx, int id, typename signal<T>::emitter em, std::strin
     }
 }
 
+// the same listener, but on signal<T>::hook_up(): the first co_await creates the signal, subscribes and only then hands
+// the collector to the registration function
+template <typename T, typename RegFn>
+async<void> hook_listener(Ctx &cx, int id, RegFn reg, std::string script) {
+    frame_guard g(cx);
+    std::size_t pc = 0;
+    std::string tag = "L" + std::to_string(id);
+    auto em = signal<T>::hook_up(std::move(reg));
+    try {
+        for (;;) {
+            if constexpr (std::is_void_v<T>) {
+                co_await em;
+                cx.ev(id, tag + ":v0");
+            } else {
+                T &v = co_await em;
+                cx.ev(id, tag + ":v" + std::to_string(v));
+            }
+            char a = pc < script.size() ? script[pc++] : 'r';
+            if (a == 'x') break;
+            if (a == 'g') co_await gate{cx, id};
+        }
+    } catch (const await_canceled_exception &) {
+        cx.ev(id, tag + ":canceled");
+    }
+}
+
 // callback functor with instance counting: `free` is reported when the last instance is destroyed
 struct cb_shared {
     Ctx *cx;
@@ -140,7 +168,10 @@ struct Case {
     std::deque<int> lv_int;     // lvalue-reference emits point here (kept alive for the whole case)
     std::deque<bool> lv_bool;
 
-    Case() {
+    bool hook_pending;
+
+    explicit Case(bool hook) : hook_pending(hook) {
+        if (hook) return;       // the signal is created by the first listener's hook_up()
         sig_t s;
         em = s.get_emitter();
         handles.emplace_back(std::move(s));
@@ -213,6 +244,23 @@ struct Case {
             auto w = vh::split(line);
             if (w.empty()) continue;
             std::string head;
+            if (hook_pending && w[0] != "end") {
+                if (w[0] == "hlisten" && w.size() == 2) {
+                    hook_pending = false;
+                    int id = next_id++;
+                    std::string sc = w[1] == "-" ? std::string() : w[1];
+                    hook_listener<T>(cx, id, [this](col_t col) {
+                        em = sig_t(col).get_emitter();
+                        handles.emplace_back(std::move(col));
+                    }, sc).detach();
+                    head = "hlisten L" + std::to_string(id);
+                } else {
+                    head = "bad-op";
+                }
+                auto evs = cx.take();
+                vh::emit(head, evs);
+                continue;
+            }
             if (w[0] == "end") {
                 while (!held.empty()) held.pop_front();
                 handles.clear();
@@ -336,15 +384,146 @@ struct Case {
     }
 };
 
+// ---------------------------------------------------------------------------------------------------------------
+// T-style stress (no model, oracle only): listeners subscribe on their own threads *while* the collector thread
+// emits / drops the last handle.
+//   case <id> race emit <nsub> <ncb> <extra> <seed>   subscribers start while the collector emits 1,2,3,...; the
+//         collector goes on until everybody has subscribed plus <extra> more values, then disconnects
+//   case <id> race drop <nsub> <ncb> <seed>           subscribers start while the last handle is destroyed
+// The raw observations go to `# ...` lines (ignored by the check: they depend on the schedule); the canonical lines say
+// per listener whether its observations are a gap-free, duplicate-free run of the emitted sequence from its first value
+// up to the last value emitted, followed by exactly one cancellation.
+struct race_listener_log {
+    std::vector<int> vals;
+    int canceled = 0;
+    int after_cancel = 0;
+};
+
+async<void> race_listener(std::atomic<int> &live, race_listener_log &log, signal<int>::emitter em) {
+    ++live;
+    try {
+        for (;;) {
+            int &v = co_await em;
+            if (log.canceled) ++log.after_cancel;
+            log.vals.push_back(v);
+        }
+    } catch (const await_canceled_exception &) {
+        ++log.canceled;
+    }
+    --live;
+}
+
+struct race_cb_log {
+    std::vector<int> vals;
+    std::atomic<int> live{0};
+    int frees = 0;
+};
+struct race_cb {
+    race_cb_log *log;
+    explicit race_cb(race_cb_log *l) : log(l) { ++log->live; }
+    race_cb(const race_cb &o) : log(o.log) { ++log->live; }
+    race_cb(race_cb &&o) : log(o.log) { ++log->live; }
+    ~race_cb() { if (--log->live == 0) ++log->frees; }
+    bool operator()(int &v) const { log->vals.push_back(v); return true; }
+};
+
+static std::string run_summary(const std::vector<int> &vals, int last, bool must_reach_last) {
+    // gap-free, duplicate-free, increasing by one, ending at `last`
+    bool contiguous = true;
+    for (std::size_t i = 1; i < vals.size(); ++i) contiguous &= vals[i] == vals[i - 1] + 1;
+    bool upto = vals.empty() ? !must_reach_last : vals.back() == last;
+    bool inrange = vals.empty() || (vals.front() >= 1 && vals.back() <= last);
+    std::string s = std::string("contiguous=") + (contiguous ? "1" : "0") + " upto_last=" + (upto ? "1" : "0") + " inrange=" + (inrange ? "1" : "0");
+    return s;
+}
+
+static void run_race(const std::vector<std::string> &w, std::istream &in) {
+    std::string line;
+    while (std::getline(in, line)) {
+        auto w2 = vh::split(line);
+        if (!w2.empty() && w2[0] == "end") break;
+    }
+    const bool drop_mode = w.size() > 3 && w[3] == "drop";
+    const int nsub = w.size() > 4 ? atoi(w[4].c_str()) : 2;
+    const int ncb = w.size() > 5 ? atoi(w[5].c_str()) : 0;
+    const int extra = drop_mode ? 0 : (w.size() > 6 ? atoi(w[6].c_str()) : 10);
+    unsigned seed = (unsigned)atoi(w.back().c_str());
+    std::atomic<int> live{0};
+    std::vector<race_listener_log> logs(nsub);
+    std::vector<race_cb_log> cblogs(ncb);
+    std::atomic<int> started{0}, subscribed{0};
+    std::atomic<bool> go{false};
+    int last = 0;
+    {
+        std::optional<signal<int>> sig;
+        sig.emplace();
+        auto em = sig->get_emitter();
+        auto col = sig->get_collector();
+        std::vector<std::thread> thr;
+        const int nthr = nsub + ncb;
+        for (int i = 0; i < nthr; ++i) {
+            unsigned spin = (seed = seed * 1103515245u + 12345u) >> 16 & 0x3ff;
+            // callbacks need a signal object: each thread gets its own copy (a strong reference it drops itself)
+            std::shared_ptr<signal<int>> own = i >= nsub ? std::make_shared<signal<int>>(*sig) : nullptr;
+            thr.emplace_back([&, i, spin, own]() mutable {
+                ++started;
+                while (!go.load()) std::this_thread::yield();
+                for (unsigned k = 0; k < spin * 20; ++k) asm volatile("" ::: "memory");
+                if (i < nsub) {
+                    race_listener(live, logs[i], em).detach();
+                } else {
+                    own->connect(race_cb(&cblogs[i - nsub]));
+                    own.reset();
+                }
+                ++subscribed;
+            });
+        }
+        while (started.load() < nthr) std::this_thread::yield();
+        go.store(true);
+        if (drop_mode) {
+            unsigned spin = (seed = seed * 1103515245u + 12345u) >> 16 & 0x3ff;
+            for (unsigned k = 0; k < spin * 20; ++k) asm volatile("" ::: "memory");
+            { auto c = std::move(col); }
+            sig.reset();        // the last handle of the collector thread; a subscriber may still hold one for a moment
+            for (auto &t : thr) t.join();
+        } else {
+            int more = extra;
+            while (subscribed.load() < nthr || more-- > 0) {
+                col(++last);    // suspend point discarded: flushed at once
+            }
+            for (auto &t : thr) t.join();
+            { auto c = std::move(col); }
+            sig.reset();
+        }
+    }
+    std::cout << "# emitted " << last << "\n";
+    for (int i = 0; i < nsub; ++i) {
+        auto &l = logs[i];
+        std::cout << "# L" << i << " n=" << l.vals.size();
+        if (!l.vals.empty()) std::cout << " first=" << l.vals.front() << " last=" << l.vals.back();
+        std::cout << "\n";
+        std::cout << "L" << i << " " << run_summary(l.vals, last, !drop_mode && extra > 0) << " canceled=" << l.canceled
+                  << " after_cancel=" << l.after_cancel << "\n";
+    }
+    for (int i = 0; i < ncb; ++i) {
+        auto &l = cblogs[i];
+        std::cout << "# C" << i << " n=" << l.vals.size() << "\n";
+        std::cout << "C" << i << " " << run_summary(l.vals, last, !drop_mode && extra > 0) << " frees=" << l.frees << " live=" << l.live.load() << "\n";
+    }
+    std::cout << "end live=" << live.load() << "\n";
+}
+
 int main() {
     std::string line;
     while (std::getline(std::cin, line)) {
         auto w = vh::split(line);
         if (w.empty() || w[0] != "case") continue;
         std::cout << "case " << w[1] << "\n";
+        if (w.size() > 2 && w[2] == "race") { run_race(w, std::cin); std::cout.flush(); continue; }
         const std::string kind = w.size() > 3 ? w[3] : "int";
-        if (kind == "void") { Case<void> c; c.run(std::cin); }
-        else { Case<int> c; c.run(std::cin); }
+        const bool hook = w.size() > 4 && w[4] == "hook";
+        if (kind == "void") { Case<void> c(hook); c.run(std::cin); }
+        else { Case<int> c(hook); c.run(std::cin); }
         std::cout.flush();
     }
     return 0;
